@@ -18,4 +18,12 @@ var props = map[string]propSpec{
 		requiredProbes: []string{"stale-ack", "repeated-ack", "ack-burst", "absorbed-event-tracked", "offsets-api-compared", "seq-gauge-compared"}},
 	"C05": {level: "exploration", quickRuns: 2500, thoroughRuns: 60000, runLimit: 30 * time.Second,
 		requiredProbes: []string{"ack-during-store-call", "explicit-save", "clean-save-episode", "failed-save-episode", "advanced-by-non-document-event"}},
+	"C01": {level: "exploration", quickRuns: 2500, thoroughRuns: 60000, runLimit: 30 * time.Second,
+		requiredProbes: []string{"checkpoint-write-judged", "crash-with-unacked-delivery", "restart-after-crash-with-unacked-event", "absorbed-event-while-earlier-delivery-unacked"}},
+	"C06": {level: "exploration", quickRuns: 2500, thoroughRuns: 60000, runLimit: 30 * time.Second,
+		requiredProbes: []string{"multi-item-snapshot-offset", "ack-of-event-from-older-snapshot", "seqno-advanced-closing-snapshot", "stored-offset-judged", "out-of-snapshot-item-emitted"}},
+	"C13": {level: "exploration", quickRuns: 2500, thoroughRuns: 60000, runLimit: 30 * time.Second,
+		requiredProbes: []string{"close:idle", "close:during-delivery", "close:save-in-flight", "shutdown-completed"}},
+	"C16": {level: "exploration", quickRuns: 2500, thoroughRuns: 60000, runLimit: 30 * time.Second,
+		requiredProbes: []string{"scrape-judged", "counter-judged", "scrape-while-closed-or-closing"}},
 }
